@@ -1032,6 +1032,7 @@ func c37() {
 	s.stride = r.Pick(120, 1000)
 
 	c37TextRoundTrips(r)
+	c37MergeAliasing(r)
 	s.enumerate()
 
 	// Real gRPC handler on a sample: a stride of the per-field cubes plus the
@@ -1060,6 +1061,7 @@ func c37() {
 	}
 	s.initQueue = queue
 	s.realEndpoints()
+	s.c37IgnoreOrder()
 
 	for k, c := range s.defectMin {
 		r.Note("minimal:"+k, c.describe(s.fields))
